@@ -67,10 +67,15 @@ def make_jobs(cases, wd, rng, flags_key="flags"):
             f.write(concretise.to_yaml(c["cfg"], rng))
         args = ["-i", "in.yaml", "-o", "out.go"]
         fl = c.get(flags_key) or {}
-        if fl.get("ignoreP"):
-            args.append("--ignore-missing-params")
-        if fl.get("ignoreS"):
-            args.append("--ignore-missing-services")
+        # a boolean flag may be written bare or with an explicit value; an unset flag may be written =false
+        for key, name in (("ignoreP", "--ignore-missing-params"), ("ignoreS", "--ignore-missing-services")):
+            style = rng.random()
+            if fl.get(key):
+                args.append(name if style < 0.6 else name + "=true")
+            elif style < 0.25:
+                args.append(name + "=false")
+        if c.get("stub"):
+            args.append("--stub")
         jobs.append({"id": i, "dir": d, "args": args, "version": "dev-main", "buildinfo": "verif", "out": "out.go"})
     return jobs
 
@@ -221,7 +226,7 @@ def replay(cases, rng):
 FAMILIES = {
     # property -> tier -> list of MC_Deps families
     "C05": {"quick": ["A2", "T", "B"], "thorough": ["A2", "T", "B", "A3", "C"]},
-    "C07": {"quick": ["A2", "P", "Bn", "D"], "thorough": ["A2", "P", "Bn", "D", "B", "A3"]},
+    "C07": {"quick": ["A2", "P", "Bn", "D", "K"], "thorough": ["A2", "P", "Bn", "D", "K", "B", "A3"]},
     "C06": {"quick": ["Mq", "N"], "thorough": ["M", "N"]},
 }
 
@@ -392,7 +397,7 @@ def run_traces(pid, tier, rng, v):
     """larger seeded random graphs (vlib/randcfg.py), judged by the same specification through MC_Deps family ext"""
     from .. import randcfg
     n = 200 if tier == "quick" else 4000
-    cases = [{"cfg": randcfg.deps_cfg(rng)} for _ in range(n)]
+    cases = [{"cfg": randcfg.deps_cfg(rng), "allflags": False} for _ in range(n)]
     r = core.run_tlc("MC_Deps.tla", "MC_Deps_ext.cfg", timeout=3000,
                      extra_files={"ext_cases.ndjson": "\n".join(json.dumps(c) for c in cases) + "\n"})
     if r.violation:
@@ -414,7 +419,7 @@ def run_traces(pid, tier, rng, v):
 
 # --------------------------------------------------------------------------- C16
 
-C16_FAMILIES = {"quick": ["X", "N", "Mq"], "thorough": ["X", "N", "M"]}
+C16_FAMILIES = {"quick": ["X", "N", "Mq", "ext"], "thorough": ["X", "N", "M", "ext"]}
 FLAGKEYS = [(False, False), (True, False), (False, True), (True, True)]
 
 
@@ -427,10 +432,20 @@ def run_c16(tier):
     acc = rej = 0
     samples, per_family = [], {}
     for fam in C16_FAMILIES[tier]:
-        r = enumerate_family(fam)
+        if fam == "ext":
+            from .. import randcfg
+            ext = [{"cfg": randcfg.deps_cfg(rng), "allflags": True} for _ in range(120 if tier == "quick" else 1500)]
+            r = core.run_tlc("MC_Deps.tla", "MC_Deps_ext.cfg", timeout=3000,
+                             extra_files={"ext_cases.ndjson": "\n".join(json.dumps(c) for c in ext) + "\n"})
+            if r.violation:
+                raise core.InfraError("TLC: invariant violated in MC_Deps/ext:\n" + r.raw_tail[-2000:])
+        else:
+            r = enumerate_family(fam)
         tot_states += r.states
         tot_gen += r.generated
         cases = r.emitted
+        if fam == "X":          # the verdict must not depend on --stub either
+            cases = cases + [dict(c, stub=True) for c in cases]
         wd = core.subdir("c16-%d" % random.getrandbits(32))
         pool = core.DriverPool()
         try:
@@ -445,7 +460,7 @@ def run_c16(tier):
         shutil.rmtree(wd, ignore_errors=True)
         groups = {}
         for c, tr in zip(cases, runs):
-            key = json.dumps(c["cfg"], sort_keys=True)
+            key = json.dumps([c["cfg"], bool(c.get("stub"))], sort_keys=True)
             groups.setdefault(key, {})[(c["flags"]["ignoreP"], c["flags"]["ignoreS"])] = (c, tr)
         nt = 0
         for key, g in groups.items():
